@@ -16,7 +16,7 @@ import (
 
 func TestC05_BurstThenNested(t *testing.T) {
 	rec := evid.For("C05")
-	rec.SetRule("sequential burst histories: 0..3 ordinary cycles, then one cycle in which 1..60000 handlers are queued before the loop is polled, then 1..6 cycles of 1..40 handlers of which some post again from inside the loop (one or two levels, 1..3 follow-ups each); every handler runs exactly once, the handlers of a cycle posted from the top level in posting order, Posted()==0 once everything ran; non-trivial = a burst of more than 10000 handlers followed by a nested post")
+	rec.SetRule("sequential burst histories: 0..3 ordinary cycles, then one cycle in which 1..60000 handlers are queued before the loop is polled, then 1..6 cycles of 1..40 handlers of which some post again from inside the loop (one or two levels, 1..3 follow-ups each); every handler runs exactly once, the handlers of a cycle posted from the top level in posting order, Posted()==0 once everything ran; finally a handler that posts itself again on every run until told to stop: every PollOne returns to its caller (at most 1000 runs inside one call) and the handler makes progress on every poll; non-trivial = a burst of more than 10000 handlers followed by a nested post")
 	vt.Check(t, 60, func(rt *rapid.T) {
 		ioc, err := sonic.NewIO()
 		if err != nil {
@@ -113,6 +113,44 @@ func TestC05_BurstThenNested(t *testing.T) {
 			}
 			cycle(fmt.Sprintf("cycle %d after the burst", i+1), n, every, levels, fanout)
 		}
+		// A handler that posts itself again every time it runs ("do a slice of work, yield to the loop, continue") until
+		// the code around the loop tells it to stop: every PollOne must come back to its caller, or nothing else sharing
+		// the loop - and nobody who could stop the handler - ever gets a turn.
+		reposts := rapid.IntRange(3, 40).Draw(rt, "reposts")
+		pollsReturned, runsThisPoll, totalRuns := 0, 0, 0
+		stop := false
+		var again func()
+		again = func() {
+			totalRuns++
+			if runsThisPoll++; runsThisPoll > 1000 {
+				rt.Fatalf("a handler that posts itself again has run %d times inside one PollOne call (PollOne returned %d times so far): Post from a handler keeps the loop from ever returning to its caller; trace=%v", runsThisPoll, pollsReturned, trace)
+			}
+			if !stop {
+				if err := ioc.Post(again); err != nil {
+					rt.Fatalf("Post from the reposting handler: %v", err)
+				}
+			}
+		}
+		if err := ioc.Post(again); err != nil {
+			rt.Fatalf("Post: %v", err)
+		}
+		for pollsReturned < reposts {
+			runsThisPoll = 0
+			_, _ = ioc.PollOne()
+			pollsReturned++
+		}
+		stop = true
+		for i := 0; i < 5 && ioc.Posted() > 0; i++ {
+			runsThisPoll = 0
+			_, _ = ioc.PollOne()
+		}
+		if p := ioc.Posted(); p != 0 {
+			rt.Fatalf("Posted()=%d after the reposting handler was told to stop and the loop was polled 5 more times; trace=%v", p, trace)
+		}
+		if totalRuns < reposts {
+			rt.Fatalf("the reposting handler ran %d times in %d PollOne calls: a handler posted from a handler was not run by the next poll; trace=%v", totalRuns, reposts, trace)
+		}
+		trace = append(trace, fmt.Sprintf("reposting handler: %d runs over %d polls", totalRuns, pollsReturned))
 		var cls []string
 		if burst > 10000 {
 			cls = append(cls, "burst>10000")
